@@ -73,6 +73,8 @@ def raise_fault(flavour, key):
         raise UnpicklableError("injected fault at %r" % (key,))
     if flavour == "signal":
         raise simmp.Killed()
+    if flavour == "oserror":
+        raise IsADirectoryError(21, "injected fault at %r" % (key,))
     raise ValueError("injected fault at %r" % (key,))
 
 
@@ -556,7 +558,12 @@ def run(ctx):
     # (3) direct exploration of all four stages
     pols = list(simrun.POLICIES)
     allstages = stages + [LeafStage("toast depth 2", 2), LeafStage("planetary depth 1", 1),
-                          LeafStage("toast sub-pyramid", 2, apex=(1, 0, 1)), TransformStage(2)]
+                          LeafStage("toast sub-pyramid", 2, apex=(1, 0, 1)), TransformStage(2),
+                          # degenerate item sets: exactly one leaf (depth 0; apex on the leaf level; a filter selecting one leaf), two leaves
+                          LeafStage("toast depth 0", 0), LeafStage("generic depth 0", 0, kind="generic"),
+                          LeafStage("apex on the leaf level", 2, apex=(2, 1, 2)), LeafStage("generic apex on the leaf level", 1, kind="generic", apex=(1, 1, 0)),
+                          LeafStage("filter selecting one leaf", 2, accept=frozenset({(1, 1, 0), (2, 3, 1)})),
+                          LeafStage("filter selecting two leaves", 2, accept=frozenset({(1, 0, 1), (2, 0, 2), (2, 1, 3)})), TransformStage(0)]
     for st in allstages:
         explore(ctx, st, 2, pols, 3 if q else 30)
         explore(ctx, st, 3, ["random", "flag-race", "starve-feeder"], 2 if q else 20)
